@@ -339,6 +339,13 @@ func Gen(t *rapid.T, o GenOpt) Case {
 	if c.Video() && pct(t, 4, "big") {
 		bigAt = uni(t, total, "bigAt")
 	}
+	// one sample with so many slices that its sub-sample table reaches the limit of saiz' 8-bit size
+	// (16+2+6n > 255 from n = 40 with 16-byte IVs, 8+2+6n from n = 41, 2+6n from n = 43)
+	manyAt, manyN := -1, 0
+	if c.Video() && pct(t, 3, "manySlices") {
+		manyAt = uni(t, total, "manyAt")
+		manyN = pick(t, "manyN", 36, 38, 39, 40, 41, 42, 43, 44, 48)
+	}
 	fragStart := map[int]bool{}
 	{
 		k := 0
@@ -409,9 +416,16 @@ func Gen(t *rapid.T, o GenOpt) Case {
 			}
 		}
 		nSlices := pick(t, "nslices", 1, 1, 1, 2, 2, 3)
+		if i == manyAt {
+			nSlices = manyN
+		}
 		firstSlice := len(s.Nals)
 		for k := 0; k < nSlices; k++ {
-			s.Nals = append(s.Nals, vc.slice(t, nalSize(t, "slice-"), key, rapid.Uint64().Draw(t, "sliceseed")))
+			size := nalSize(t, "slice-")
+			if i == manyAt && (size < 130 || size > 400) {
+				size = 130 + size%200 // every slice long enough to need an entry of its own
+			}
+			s.Nals = append(s.Nals, vc.slice(t, size, key, rapid.Uint64().Draw(t, "sliceseed")))
 			if k+1 < nSlices && pct(t, 10, "mid") {
 				s.Nals = append(s.Nals, vc.nonVCL("filler", nalSize(t, "midfil-"), 0)) // non-VCL between slices
 			}
@@ -471,6 +485,8 @@ func Classes(c *Case) []string {
 		}
 	}
 	add(len(c.Frags) >= 2, ">=2 fragments")
+	add(c.MaxEntries() >= 30, ">=30 sub-sample entries in a sample")
+	add(c.SaizLimit(), "sub-sample table beyond the saiz size limit")
 	add(c.Styp, "styp-segments")
 	add(len(c.Pssh) > 0, "pssh-given")
 	add(len(c.MoovExtra) > 0, "extra-box-in-moov")
